@@ -50,7 +50,8 @@ PY
   # independently produced behaviour-preserving refactorings of this property's anchored code
   for f in "$HERE"/selftest/refactorings/"$PROP"-r*.diff "$HERE"/selftest/refactorings2/"$PROP"-r*.diff; do
     [ -f "$f" ] || continue
-    echo "$(basename "$f" .diff) preserving silent $f ''"
+    id=$(basename "$f" .diff); exp=silent; grep -q "\"$id\"" "$HERE/selftest/expected_undecided.json" 2>/dev/null && exp=undecided
+    echo "$id preserving $exp $f ''"
   done
 } | xargs -P "$J" -L 1 bash -c 'variant "$0" "$1" "$2" "$3" "$4"'
 
@@ -71,7 +72,11 @@ for f in sorted(glob.glob(out+"/v.*")):
     outcome="detected" if n>0 else "silent"
     if err: outcome="error: "+err
     vs.append({"id":id,"kind":kind,"expected":exp,"outcome":outcome,"violations":n,"reported":[k for k in keys.split(";") if k]})
-    if err: fails.append("variant %s could not be analysed: %s"%(id,err))
+    if exp=="miss": pass   # explicitly not decided (selftest/expected_miss.json): reported or not, nothing to check
+    elif exp=="undecided":
+        if n>0: fails.append("behaviour-preserving variant %s is reported (%s)"%(id,keys))
+        elif "unresolved anchor" not in err: fails.append("variant %s was expected to end in 'unresolved anchor' (changed signature) but: %s"%(id,err or "passed"))
+    elif err: fails.append("variant %s could not be analysed: %s"%(id,err))
     elif exp=="detect" and n==0: fails.append("breaking variant %s (%s) is NOT reported by the rules of %s"%(id,kind,prop))
     elif exp=="silent" and n>0: fails.append("behaviour-preserving variant %s is reported (%s)"%(id,keys))
 cs=[]
